@@ -235,6 +235,14 @@ class MarkupMachine(Machine):
 class HierarchicalMarkupMachine(MarkupMachine, HierarchicalMachine):
     """Extends transitions.extensions.nesting.HierarchicalMachine with markup capabilities."""
 
+    def on_enter(self, state_name, callback):
+        super(HierarchicalMarkupMachine, self).on_enter(state_name, callback)
+        self._needs_update = True
+
+    def on_exit(self, state_name, callback):
+        super(HierarchicalMarkupMachine, self).on_exit(state_name, callback)
+        self._needs_update = True
+
 
 def rep(func, format_references=None):
     """Return a string representation for `func`."""
